@@ -168,6 +168,10 @@ impl SentinelRule for Rule {
         if self.threshold < 0.0 {
             return Err(Error::msg("negative threshold"));
         }
+        if !self.threshold.is_finite() {
+            // NaN compares false with everything and an infinite threshold overflows the warm-up token arithmetic
+            return Err(Error::msg("threshold must be a finite number"));
+        }
         if self.relation_strategy == RelationStrategy::Associated && self.ref_resource.is_empty() {
             return Err(Error::msg("ref_resource must be non empty when relation_strategy is RelationStrategy::Associated"));
         }
